@@ -1,3 +1,4 @@
+use super::allocator::BlockStateTracker;
 use crate::wal::block::Block;
 use crate::wal::config::debug_print;
 use std::collections::HashMap;
@@ -38,6 +39,21 @@ impl Reader {
                     }
                     if info.cur_block_idx == idx && info.cur_block_offset > used {
                         info.cur_block_offset = used;
+                    }
+                    if used == 0 {
+                        // Nothing of the block is left, and a block without entries is not part of
+                        // the chain (see Writer::hand_over_sealed_block): recovery could not bring
+                        // it back, so chain positions persisted later would be off by one
+                        let removed = info.chain.remove(idx);
+                        if info.cur_block_idx > idx {
+                            info.cur_block_idx -= 1;
+                        } else if info.cur_block_idx == idx {
+                            info.cur_block_offset = 0;
+                        }
+                        BlockStateTracker::set_checkpointed_true(
+                            &removed.file_path,
+                            removed.id as usize,
+                        );
                     }
                 }
             }
